@@ -40,7 +40,7 @@ def gen_segment_history(rng, n, strict=False, reject=False):
         elif k == 7:
             ops.append(['deli', name.lower(), rng.randrange(0, 3)])
         elif k == 8:
-            ops.append(['remove', rng.randrange(0, 4)])
+            ops.append(['remove', rng.randrange(0, 4)] if rng.random() < .6 else ['setpos', rng.randrange(0, 4), val])
         elif k == 9:
             ops.append(rng.choice([['copy', name.lower(), val], ['copy', name.lower(), val], ['reattach', name, val], ['add_twice', name, val], ['setelem_attached', name, val],
                                    ['setparent', name, val], ['setparent_none', rng.randrange(0, 4)], ['settrav_replace', name, val],
@@ -54,7 +54,7 @@ def gen_segment_history(rng, n, strict=False, reject=False):
                 ['add_wrongclass'], ['set_wrongname', 'nk1_2' if seg != 'NK1' else 'pid_3', 'X'], ['add_otherlevel', name, val],
                 ['add_otherversion', name, val], ['del', '%s_%d' % (seg.lower(), 19)], ['set', 'foo_1', 'X'], ['set_elem_wrongname', name.lower()],
                 ['replace_otherlevel', name.lower(), val], ['add_overflow', '%s_1' % seg, '1'], ['set_invalid_strict', name.lower()],
-                ['datatype_populated', name.lower()], ['deli', name.lower(), 7], ['setparent_otherlevel', name, val], ['set_basedt_refused', name.lower()], ['children_assign_refused', name, val]]))
+                ['datatype_populated', name.lower()], ['deli', name.lower(), 7], ['setparent_otherlevel', name, val], ['set_basedt_refused', name.lower()], ['set_basedt_refused', name.lower(), 'long'], ['children_assign_refused', name, val]]))
     return {'root': 'segment', 'segment': seg, 'version': '2.5', 'strict': strict, 'ops': ops}
 
 
@@ -414,6 +414,10 @@ def run_history(h):
                 c = root.children[op[1]]
                 root.children.remove(c)
                 spec.remove_at(op[1])
+            elif kind == 'setpos':
+                # `element.children[i] = value`: the list edit proper — the child at position i is replaced in place (defect D38)
+                root.children[op[1]] = op[2]
+                spec.items[op[1]] = (spec.items[op[1]][0], op[2])
             elif kind == 'copy':
                 setattr(other, op[1], op[2])
                 src_before = observe(other)
@@ -477,7 +481,11 @@ def run_history(h):
                 from hl7apy.v2_5 import ST
                 ft = Field(op[1].upper(), version=v, validation_level=lvl)
                 if not is_base_datatype(ft.datatype, v):
-                    setattr(root, op[1], ST('x'))
+                    # (by HL7 name or, when asked, by the child's long name: the refusal must clean up whatever the spelling, seed C12-g)
+                    attr = ft.long_name.lower() if len(op) > 2 and getattr(ft, 'long_name', None) else op[1]
+                    if attr in ('name', 'value', 'version', 'parent', 'children', 'datatype', 'reference', 'classname', 'validation_level', 'encoding_chars', 'structure_by_name'):
+                        attr = op[1]      # (NK1_2's long name is NAME: `segment.name = ...` is the element's own attribute, not a child)
+                    setattr(root, attr, ST('x'))
             elif kind == 'datatype_populated':
                 p = getattr(root, op[1])
                 # only where the change must be refused: a populated element of a complex datatype (on a base datatype
